@@ -23,7 +23,7 @@ ASSUMPTIONS = [
     "third decimal",
     "sensors whose bytes lie outside the fetched window of a block are C14's subject and skipped here for that block",
 ]
-MUST = ["end_to_end_with_refused_blocks", "undecodable_neighbour_in_block", "single_sensor_reads_end_to_end", "sensor_and_setting_of_one_id", "values_checked", "footprint_checked", "noninterference_checked", "sentinel_hit", "shifted_window_checked",
+MUST = ["schedule_power_readings_checked", "schedule_groups_decoded", "end_to_end_with_refused_blocks", "undecodable_neighbour_in_block", "single_sensor_reads_end_to_end", "sensor_and_setting_of_one_id", "values_checked", "footprint_checked", "noninterference_checked", "sentinel_hit", "shifted_window_checked",
         "end_to_end_values", "single_read_checked", "sensors_covered"]
 EXHAUSTIVE = {"quick": False, "thorough": False}
 
@@ -385,6 +385,67 @@ def dt_pair(spec, part):
                          {"dtpair": True, "seed": spec["seed"], "i": i})
 
 
+def schedule_groups(spec, part):
+    """the 8-byte (eco-mode v1) and 12-byte (eco-mode v2 / peak shaving) schedule groups: every field of a decodable group is the documented
+    reading of its own bytes - start / end time (one byte each), signed on/off byte, day mask, signed 16-bit power, SoC, month mask - whatever
+    the same object decoded before; the power figure in percent is the raw value for the plain eco type and the raw value / 10 for the
+    745-platform type (and for a 'not set' group holding more than 100), of the same magnitude for +raw and -raw (charging and discharging at the same rate read alike)"""
+    g = env.goodwe()
+    S = g.sensor
+    PR = g.protocol.ProtocolResponse
+    rnd = random.Random(spec["seed"])
+    hv = [v for v in env.harvest_ints() if abs(v) <= 1100]
+    objs = {"EcoModeV1": S.EcoModeV1("eco_mode_1", 47515, "x"), "EcoModeV2": S.EcoModeV2("eco_mode_1", 47547, "x"),
+            "PeakShavingMode": S.PeakShavingMode("peak_shaving_mode", 47589, "x")}
+    for it in range(spec["n"]):
+        tname = rnd.choice(list(objs))
+        sh, sm, eh, em = rnd.randrange(24), rnd.randrange(60), rnd.randrange(24), rnd.randrange(60)
+        days = rnd.choice((0x7F, 0, 0x15, rnd.randrange(128)))
+        if tname == "EcoModeV1":
+            power = rnd.choice((rnd.randrange(-100, 101), rnd.choice(hv))) if rnd.random() < 0.8 else rnd.randrange(-100, 101)
+            power = max(-100, min(100, power))
+            onoff = rnd.choice((0, 0xFF))
+            raw = bytes([sh, sm, eh, em]) + power.to_bytes(2, "big", signed=True) + bytes([onoff, days])
+            want = {"start_h": sh, "start_m": sm, "end_h": eh, "end_m": em, "power": power, "on_off": onoff - 256 if onoff > 127 else onoff, "day_bits": days}
+            typ = None
+        else:
+            typ = rnd.choice((0, 0, 6, 6, 85, 3))
+            onoff = rnd.choice((typ, 255 - typ)) if typ != 85 else 85
+            lim = {0: 100, 6: 1000, 85: 1000, 3: 3000}[typ]
+            power = rnd.choice(hv + [rnd.randrange(-lim, lim + 1)] * 3 + [lim, -lim, lim - 1, -lim + 1, 955, -955, 5, -5, 1, -1])
+            power = max(-lim, min(lim, power))
+            soc, months = rnd.randrange(0, 101), rnd.choice((0, 0x0FFF, 0x0555, rnd.randrange(0x1000)))
+            raw = bytes([sh, sm, eh, em, onoff, days]) + power.to_bytes(2, "big", signed=True) + soc.to_bytes(2, "big") + months.to_bytes(2, "big")
+            want = {"start_h": sh, "start_m": sm, "end_h": eh, "end_m": em, "power": power, "on_off": onoff - 256 if onoff > 127 else onoff,
+                    "day_bits": days, "soc": soc, "month_bits": months}
+        sn = objs[tname]
+        case = {"schedule": True, "type": tname, "bytes": raw.hex()}
+        part.evaluations += 1
+        try:
+            v = sn.read_value(PR(raw, None))
+        except ValueError:
+            part.count("schedule_groups_refused")       # (which contents are decodable is C11's subject)
+            continue
+        except Exception as e:      # noqa
+            part.violate(f"C12/settings/{tname}/raises/{type(e).__name__}", f"{tname}.read_value({raw.hex()}) raised {type(e).__name__}: {e}", case)
+            continue
+        part.count("schedule_groups_decoded")
+        bad_f = {k: (getattr(v, k, "<missing>"), w) for k, w in want.items() if getattr(v, k, "<missing>") != w}
+        if bad_f:
+            part.violate(f"C12/settings/{tname}/wrong-field", f"{tname}.read_value({raw.hex()}): fields (decoded, own bytes) differ: {bad_f}", case)
+        if typ is not None:
+            gp = v.get_power()
+            # (a group never configured - type 0x55 - holds either percent or the 745 platform's tenths: tenths when beyond 100)
+            exp_mag = abs(power) if typ in (0, 3) or (typ == 85 and abs(power) <= 100) else abs(power) // 10
+            if typ in (0, 6, 85) and (abs(gp) != exp_mag or (gp != 0 and (gp < 0) != (power < 0))):
+                part.violate(f"C12/settings/{tname}/wrong-power-reading",
+                             f"{tname}.read_value({raw.hex()}) (schedule type {typ}, raw power {power}): get_power() = {gp}, documented reading "
+                             f"{'-' if power < 0 else ''}{exp_mag} %", case)
+            else:
+                part.count("schedule_power_readings_checked")
+        part.see(f"schedule|{tname}|{typ}|{power < 0}")
+
+
 def plan(tier, seed):
     specs = []
     shards = 2 if tier == "quick" else 8
@@ -397,6 +458,7 @@ def plan(tier, seed):
     for i in range(2 if tier == "quick" else 8):
         specs.append({"mode": "e2e", "seed": f"{seed}:C12:e2e:{i}", "n": 60 if tier == "quick" else 600})
     specs.append({"mode": "dtpair", "seed": f"{seed}:C12:dtpair", "n": 20 if tier == "quick" else 200})
+    specs.append({"mode": "schedule", "seed": f"{seed}:C12:schedule", "n": 6000 if tier == "quick" else 200000})
     return specs
 
 
@@ -406,6 +468,8 @@ def run_shard(spec):
         direct(spec, part)
     elif spec["mode"] == "dtpair":
         dt_pair(spec, part)
+    elif spec["mode"] == "schedule":
+        schedule_groups(spec, part)
     else:
         end_to_end(spec, part)
     return part
@@ -414,6 +478,9 @@ def run_shard(spec):
 def replay(case):
     g = env.goodwe()
     part = Part()
+    if case.get("schedule"):
+        schedule_groups({"seed": "replay", "n": 3000}, part)
+        return [{"key": v["key"], "msg": v["msg"]} for v in part.violations]
     if case.get("dtpair"):
         dt_pair({"seed": case["seed"], "n": case["i"] + 1}, part)
     elif case.get("e2e"):
